@@ -1003,13 +1003,19 @@ pub fn coordinator(check: &dyn Check, a: &RunArgs) -> i32 {
         "held_on_observed"
     };
     coverage.insert("verdict".into(), json!(verdict));
+    let mut assumptions = check.assumptions();
+    if let Ok(n) = std::env::var("VERIF_EXTRA_NOTE") {
+        if !n.is_empty() {
+            assumptions.push(format!("extra build flavours run before this one in the thorough tier — {n}"));
+        }
+    }
     let ev = json!({
         "property_id": id,
         "tier": a.tier.name(),
         "seed": a.seed,
         "level": check.level(),
         "coverage": coverage,
-        "assumptions": check.assumptions(),
+        "assumptions": assumptions,
         "wall_s": wall,
         "violations": reported.len(),
     });
